@@ -521,7 +521,7 @@ package resource
 //@     invariant [INT] `exists` ==> oldVal != nil && !isnil(oldVal.body)
 //@     decreases 5 - attempt
 //@
-//@ property C01 C04 C05 C06 C07
+//@ property C01 C04 C05 C06 C07 C14
 //@ // ---- the goroutine that forwards a Value's events to one subscriber (C04, C06, C16 suppression step, C10 close) ----
 //@ // The bus of a Value only ever carries *ValueChange (see set#post.event-value); the seed comes from onUpdate.
 //@ func (*Value).Pull$1()
